@@ -1,4 +1,5 @@
 import DispatchVerif.Core.Time
+import DispatchVerif.Core.TimeE
 /-! # C12 — dispatch_time arithmetic is monotone, clock-preserving and saturating
 
 Property theorems only; the model (`TimeP.dispatchTime'`, `walltimeTs`, `walltimeNow`, `timeout`) and
@@ -290,6 +291,25 @@ theorem timeout_past_is_zero {nu nm nw : Nat} (hc : Clocks nu nm nw) :
   · intro v a b c; exact timeout_elapsed_rel_up v nu nm nw a b c
   · intro v a b c; exact timeout_elapsed_rel_mono v nu nm nw a b c
   · intro v a b c; exact timeout_elapsed_wall v nu nm nw a b c
+
+/-- **the absolute deadline of a semaphore wait** (`_dispatch_time_nanoseconds_since_epoch`, used by the POSIX-semaphore back
+    end of `dispatch_semaphore_wait`; code after the F17 repair): for a time on the uptime or the monotonic clock it is the
+    present wall-clock reading plus `_dispatch_timeout` of the time (so: the present when the time is past); for a wall-clock
+    time it is not after the present when the time is past, and the present plus the time-out otherwise -/
+theorem wait_deadline_past_does_not_block (nu nm nw : Nat) (hw : 2 ≤ nw ∧ nw ≤ MAXV) :
+    (∀ v, 1 ≤ v → v ≤ MAXV → sinceEpoch v nu nm nw = nw + timeout v nu nm nw) ∧
+    (∀ v, v ≤ MAXV → sinceEpoch (v + B63) nu nm nw = nw + timeout (v + B63) nu nm nw) ∧
+    (∀ v, 3 ≤ v → v ≤ MAXV →
+      (timeout (W - v) nu nm nw = 0 → sinceEpoch (W - v) nu nm nw ≤ nw) ∧
+      (0 < timeout (W - v) nu nm nw → sinceEpoch (W - v) nu nm nw = nw + timeout (W - v) nu nm nw)) ∧
+    sinceEpoch WALLNOW nu nm nw ≤ nw ∧ sinceEpoch 0 nu nm nw = nw :=
+  since_epoch_deadline nu nm nw hw
+
+/-- F17, the function as it was found: a monotonic-clock time that is already past became a deadline more than 73 years
+    ahead (every time with bit 63 set was read as a wall-clock time) -/
+theorem F17_as_found (v nu nm nw : Nat) (h1 : 1 ≤ v) (h2 : v ≤ 2 ^ 61) (hpast : v ≤ nm) (hw : nw ≤ 2 ^ 61) :
+    timeout (v + B63) nu nm nw = 0 ∧ nw + 2 ^ 61 < sinceEpochOld (v + B63) nu nm nw :=
+  F17_monotonic_past_deadline_far_future v nu nm nw h1 h2 hpast hw
 
 /-! ## non-vacuity and the repaired defects -/
 
